@@ -1,5 +1,6 @@
 import Driver.Util
 import BtcVerif.Model.Compact
+import BtcVerif.Spec.Compact
 import BtcVerif.Spec.Chain
 
 namespace Driver.C17
